@@ -86,8 +86,9 @@ def _basis_worker(c):
         # the plane given relative to a CENTRED conventional cell while the cell supplied is its primitive cell (keyword conventional_setting):
         # the vectors come back in primitive indices; doubled and expressed in conventional indices they are integer vectors again and the
         # same record form applies (zone law against the conventional (hkl), normal against the conventional cell vectors)
-        if c['cell'] in ('cubic', 'tetragonal', 'orthorhombic'):
-            import zlib
+        import zlib
+        # (indices beyond +-2 — thorough tier only — are searched much longer: a quarter of those cases, chosen by a hash of the case)
+        if c['cell'] in ('cubic', 'tetragonal', 'orthorhombic') and (max(abs(x) for x in hkl) <= 2 or zlib.crc32(repr((hkl, c['cut'], c['cell'])).encode()) % 4 == 0):
             from atomman.tools import miller
             setting = 'fiabc'[zlib.crc32(repr((c['cell'], hkl, c['cut'])).encode()) % 5]
             lat = miller.vector_primitive_to_conventional(np.identity(3), setting)      # rows: primitive vectors in conventional indices
